@@ -30,10 +30,16 @@ def gen_case(run, i):
     want_src_grid = (i // 3) % 2 == 1
     nsb, nrb = rng.choice([(1, 1), (2, 3), (3, 3), (3, 4), (4, 4)])
     # band selection: default / subset / re-ordering
-    sel = ['default', 'reorder', 'subset'][(i // 6) % 3] if nsb > 1 else 'default'
+    sel = ['default', 'reorder', 'subset', 'repeat'][(i // 3 + i // 12) % 4] if nsb > 1 else 'default'
     if sel == 'default':
         sb, rb = None, None
         n = nsb
+    elif sel == 'repeat':
+        # one reference band paired with several source bands (a multi-band source against a panchromatic reference band)
+        n = nsb
+        sb = rng.sample(range(1, nsb + 1), n)
+        x = rng.randint(1, nrb)
+        rb = [x] * (n - 1) + [rng.randint(1, nrb)]
     else:
         n = nsb if sel == 'reorder' else rng.randint(1, nsb - 1)
         sb = rng.sample(range(1, nsb + 1), n)
